@@ -301,6 +301,13 @@ class Check:
             self.broken.append("coq build failed: " + "\n".join(log.splitlines()[-15:]))
         elif not pr["ok"]:
             self.broken.append(f"Props/{self.pid}.v no longer checks: " + pr["log"][-1500:])
+        if self.tier == "thorough" and ok and pr["ok"]:
+            # independent re-check of the compiled theory and everything it depends on
+            rc, out = sh(f"coqchk -o -silent -Q theories OQ OQ.Props.{self.pid}", cwd=COQ, timeout=3000)
+            axs = re.findall(r"(?m)^\s{4}(Coq\.[\w.']+|[A-Z][\w.']+)\s*$", out)
+            self.extra_cov["coqchk"] = {"ok": rc == 0, "axioms_in_context": sorted(set(axs))}
+            if rc != 0:
+                self.broken.append("coqchk rejects the compiled development: " + out[-800:])
         return ok and pr["ok"] and not bad
 
     # -- correspondence bookkeeping
